@@ -18,15 +18,20 @@ import (
 	"verifharness/hx"
 )
 
-const Rule = "cases = histories on graph objects kept alive for the whole case: `graph kind n`, then `edge` (AddEdge) lines interleaved " +
-	"with queries in several rounds (paths/path for dfs, dfsi, bfs and every source, orders, cc, scc, cycle, topo, mst, spt/sptto, " +
-	"dump = V/E/Adj/InDegree, reverse, indeg/outdeg/degree/adjof/edges), `mkrev` keeps Reverse() as a further object and `use i` " +
-	"switches between the objects, all drawn from VERIF_SEED; edge lists incl. self-loops, parallel edges, out-of-range endpoints, " +
+const Rule = "cases = histories on graph objects and result objects kept alive for the whole case: `graph kind n [edges]` = NewX(n, edges...) " +
+	"with none, some or all of the first edges, then `edge` (AddEdge) lines interleaved with queries in several rounds (paths/path for " +
+	"dfs, dfsi, bfs and every source, orders, cc, scc, cycle, topo, mst, spt/sptto, dump = V/E/Adj/InDegree, reverse, " +
+	"indeg/outdeg/degree/adjof/edges), `mkrev` keeps Reverse() as a further object, `new n [edges]` adds an unrelated object of the " +
+	"same type and `use i` switches between the objects; " +
+	"`keep <call>` keeps the result object of a call (*Paths, *Orders, *(Strongly)ConnectedComponents, *DirectedCycle, *Topological, " +
+	"*MinimumSpanningTree, *ShortestPathTree, the slice Adj(v) returned) and `ask k [v]` reads it later - after AddEdge, other " +
+	"traversals and algorithms on the same and on other objects, further results - and more than once (judged against the graph as it " +
+	"was when the result was computed); all drawn from VERIF_SEED; edge lists incl. self-loops, parallel edges, out-of-range endpoints, " +
 	"zero/negative weights; weighted cases carry wexp=k (the library sees weight*2^k, k from -1070 to +900, exact in float64) or " +
 	"mixed magnitudes (weights m*2^d, d up to 40); shapes: random multigraphs with 0-9 vertices, disconnected and dense ones, DAGs, " +
 	"functional graphs, near-tie routes, long paths/cycles/stars/binary trees with 1030-2120 vertices (stack and queue blocks of " +
-	"1024 crossed); non-trivial = some object has an edge between two distinct valid vertices and at least one algorithm query was " +
-	"answered; distinct = distinct (header, op list)"
+	"1024 crossed); non-trivial = some object has an edge between two distinct valid vertices and at least one algorithm query or " +
+	"result read was answered; distinct = distinct (header, op list)"
 
 type edge struct {
 	u, v int
@@ -49,6 +54,8 @@ type gobj struct {
 	// sum of |w| over the valid edges: every sum of distinct edge weights the library can form is an integer of at
 	// most this magnitude, so below 2^53 (asserted at every `edge`) all its float64 additions are exact
 	absSum int64
+	// built by NewX(n, edges…) with a non-empty edge list
+	ctorEdges bool
 	// a query has been answered on this object (an `edge` after that is the interesting kind of history)
 	queried      bool
 	edgesAtQuery int
@@ -58,10 +65,11 @@ type gobj struct {
 	reach [][]bool
 }
 
-// world: the objects a case holds (object 0 from `graph`, further ones from `mkrev`) and the current one
+// world: the objects a case holds (object 0 from `graph`, further ones from `mkrev` and `new`) and the current one
 type world struct {
 	objs []*gobj
 	cur  int
+	kept []*result // the result objects the client holds (`keep`), in the order they were obtained
 }
 
 func (g *gobj) directed() bool { return g.kind == "directed" || g.kind == "wdirected" }
@@ -332,8 +340,9 @@ func parseStrat(s string) (graph.TraversalStrategy, bool) {
 
 const opTimeout = 5 * time.Second
 
-// hangs counts ops that did not return; their goroutines keep spinning, so after a few of them the run
-// stops executing further cases (the hang is already recorded as a violation with a replay file)
+// hangs counts ops that did not return; their goroutines keep spinning (and, when the loop that does not end
+// pushes on a stack, allocating), so after the first one no further case is executed (the hang is already
+// recorded as a violation with a replay file)
 var hangs int
 
 // Exec runs one case on the real graph package and checks every answer against the oracles.
@@ -355,7 +364,7 @@ func Exec(c hx.Case) hx.Result {
 	if hx.HeaderGet(c.Header, "mixed") != "" {
 		tags["mixed-magnitudes"] = true
 	}
-	if hangs >= 2 {
+	if hangs >= 1 {
 		return res
 	}
 
@@ -372,6 +381,9 @@ func Exec(c hx.Case) hx.Result {
 		if !finished {
 			res.Outs = append(res.Outs, "hang")
 			bad(i, "%s did not return within %v", op, opTimeout)
+			if res.BadOp == i {
+				res.Sig = "hang" // the shrinker does not turn a wrong answer into a hang (or the other way round)
+			}
 			tags["hang"] = true
 			hangs++
 			break
@@ -385,6 +397,11 @@ func Exec(c hx.Case) hx.Result {
 			break
 		}
 		res.Outs = append(res.Outs, out)
+		if res.BadOp >= 0 {
+			// The oracle has objected: the case ends here, like at a panic.  What a corrupted object or result
+			// does afterwards adds nothing (and To(v) on a corrupted *Paths can walk a cycle of edgeTo for ever).
+			break
+		}
 	}
 	if len(w.objs) > 0 {
 		tags["kind="+w.objs[0].kind] = true
@@ -427,112 +444,280 @@ func Exec(c hx.Case) hx.Result {
 	return res
 }
 
-func execOp(wl *world, f []string, i int, bad func(int, string, ...any), tags map[string]bool, argOOR *bool, answered *bool, wexp int) string {
-	if len(f) == 0 {
-		return "bad-op"
+// admitWeight: exactness of everything the library will compute with the weight w of a stored edge (see gobj.absSum)
+func (g *gobj) admitWeight(w int, i int, bad func(int, string, ...any)) {
+	scaled := math.Ldexp(float64(w), g.wexp)
+	a := int64(w)
+	if a < 0 {
+		a = -a
 	}
-	if len(wl.objs) == 0 {
-		if len(f) == 3 && f[0] == "graph" {
-			n, err := strconv.Atoi(f[2])
-			if err != nil || n < 0 {
-				return "bad-op"
-			}
-			ng := &gobj{kind: f[1], n: n, wexp: wexp}
-			switch f[1] {
-			case "directed":
-				ng.d = graph.NewDirected(n)
-			case "undirected":
-				ng.u = graph.NewUndirected(n)
-			case "wdirected":
-				ng.wd = graph.NewWeightedDirected(n)
-			case "wundirected":
-				ng.wu = graph.NewWeightedUndirected(n)
-			default:
-				return "bad-op"
-			}
-			wl.objs = append(wl.objs, ng)
-			return "ok"
-		}
-		return "bad-op"
+	g.absSum += a
+	if g.absSum >= 1<<53 || math.IsInf(scaled, 0) || math.Ldexp(scaled, -g.wexp) != float64(w) ||
+		math.IsInf(math.Ldexp(float64(g.absSum), g.wexp), 0) || math.Ldexp(float64(g.absSum), g.wexp) >= math.MaxFloat64/4 {
+		bad(i, "harness: weight %d * 2^%d (sum of magnitudes %d) is outside the range in which float64 arithmetic is exact", w, g.wexp, g.absSum)
 	}
-	g := wl.objs[wl.cur]
-	n := g.n
-	if f[0] != "edge" && f[0] != "use" && f[0] != "mkrev" {
-		if len(g.edges) > g.edgesAtQuery && g.queried {
-			tags["query-after-edge-after-query"] = true
-		}
-		g.queried = true
-		g.edgesAtQuery = len(g.edges)
-	}
-	atoi := func(s string) (int, bool) { v, err := strconv.Atoi(s); return v, err == nil }
-	valid := func(v int) bool { return v >= 0 && v < n }
-	us := func(x float64) float64 { return math.Ldexp(x, -g.wexp) } // undo the weight scale
+}
 
-	switch f[0] {
-	case "edge":
-		if (g.weighted() && len(f) != 4) || (!g.weighted() && len(f) != 3) {
-			return "bad-op"
+// newGraph: `graph <kind> <n> [<u> <v> [<w>]]…` = NewX(n, edges…) with the edges of the line as the constructor's
+// edge list (none: NewX(n)).  nil = bad-op.
+func newGraph(f []string, wexp int, i int, bad func(int, string, ...any), tags map[string]bool) *gobj {
+	if len(f) < 3 || f[0] != "graph" {
+		return nil
+	}
+	n, err := strconv.Atoi(f[2])
+	if err != nil || n < 0 {
+		return nil
+	}
+	ng := &gobj{kind: f[1], n: n, wexp: wexp}
+	switch f[1] {
+	case "directed", "undirected", "wdirected", "wundirected":
+	default:
+		return nil
+	}
+	per := 2
+	if ng.weighted() {
+		per = 3
+	}
+	rest := f[3:]
+	if len(rest)%per != 0 {
+		return nil
+	}
+	var raw []rawEdge
+	for k := 0; k < len(rest); k += per {
+		e := rawEdge{}
+		var err1, err2, err3 error
+		e.u, err1 = strconv.Atoi(rest[k])
+		e.v, err2 = strconv.Atoi(rest[k+1])
+		if per == 3 {
+			e.w, err3 = strconv.Atoi(rest[k+2])
 		}
-		u, ok1 := atoi(f[1])
-		v, ok2 := atoi(f[2])
-		w, ok3 := 0, true
-		if g.weighted() {
-			w, ok3 = atoi(f[3])
+		if err1 != nil || err2 != nil || err3 != nil {
+			return nil
 		}
-		if !ok1 || !ok2 || !ok3 {
-			return "bad-op"
-		}
-		scaled := math.Ldexp(float64(w), g.wexp)
-		if g.weighted() && valid(u) && valid(v) {
-			// exactness of everything the library will compute with this weight (see gobj.absSum)
-			a := int64(w)
-			if a < 0 {
-				a = -a
+		raw = append(raw, e)
+	}
+	valid := func(v int) bool { return v >= 0 && v < n }
+	var pairs [][2]int
+	var des []graph.DirectedEdge
+	var ues []graph.UndirectedEdge
+	for _, e := range raw {
+		scaled := math.Ldexp(float64(e.w), wexp)
+		pairs = append(pairs, [2]int{e.u, e.v})
+		des = append(des, graph.VerifDirectedEdge(e.u, e.v, scaled))
+		ues = append(ues, graph.VerifUndirectedEdge(e.u, e.v, scaled))
+		if valid(e.u) && valid(e.v) {
+			if ng.weighted() {
+				ng.admitWeight(e.w, i, bad)
 			}
-			g.absSum += a
-			if g.absSum >= 1<<53 || math.IsInf(scaled, 0) || math.Ldexp(scaled, -g.wexp) != float64(w) ||
-				math.IsInf(math.Ldexp(float64(g.absSum), g.wexp), 0) || math.Ldexp(float64(g.absSum), g.wexp) >= math.MaxFloat64/4 {
-				bad(i, "harness: weight %d * 2^%d (sum of magnitudes %d) is outside the range in which float64 arithmetic is exact", w, g.wexp, g.absSum)
-			}
-		}
-		switch g.kind {
-		case "directed":
-			g.d.AddEdge(u, v)
-		case "undirected":
-			g.u.AddEdge(u, v)
-		case "wdirected":
-			g.wd.AddEdge(graph.VerifDirectedEdge(u, v, scaled))
-		case "wundirected":
-			g.wu.AddEdge(graph.VerifUndirectedEdge(u, v, scaled))
-		}
-		if valid(u) && valid(v) {
-			g.edges = append(g.edges, edge{u, v, int64(w)})
-			g.succ, g.reach = nil, nil
-			if w < 0 {
-				g.neg = true
-			}
-			if g.queried {
-				tags["edge-after-query"] = true
+			ng.edges = append(ng.edges, edge{e.u, e.v, int64(e.w)})
+			if e.w < 0 {
+				ng.neg = true
 			}
 		} else {
 			tags["edge-out-of-range"] = true
 		}
-		return "ok"
+	}
+	if len(raw) > 0 {
+		tags["ctor-with-edges"] = true
+		ng.ctorEdges = true
+	}
+	switch f[1] {
+	case "directed":
+		ng.d = graph.NewDirected(n, pairs...)
+	case "undirected":
+		ng.u = graph.NewUndirected(n, pairs...)
+	case "wdirected":
+		ng.wd = graph.NewWeightedDirected(n, des...)
+	case "wundirected":
+		ng.wu = graph.NewWeightedUndirected(n, ues...)
+	}
+	return ng
+}
 
-	case "dump", "reverse", "mkrev", "use", "indeg", "outdeg", "degree", "adjof", "edges", "traverse":
-		return execStateOp(wl, g, f, i, bad, tags)
+// snapshot: the oracle's view of the object as it is now (kind, n, the valid edges so far); no implementation pointer
+func (g *gobj) snapshot() *gobj {
+	return &gobj{kind: g.kind, n: g.n, edges: append([]edge(nil), g.edges...), neg: g.neg, wexp: g.wexp, absSum: g.absSum}
+}
 
-	case "paths", "path":
-		if (f[0] == "paths" && len(f) != 3) || (f[0] == "path" && len(f) != 4) {
-			return "bad-op"
+// result: an object a query hands out (*Paths, *Orders, …, the slice Adj(v) returned).  A direct query reads it at
+// once; `keep` holds on to it for the rest of the case and `ask` reads it later.  g is the ORACLE's graph for it:
+// the edges the object had when the result was computed (C14: the answer must be right for that graph).
+type result struct {
+	what  string // paths orders cc scc cycle topo mst spt adjof | hole
+	line  string
+	g     *gobj
+	src   *gobj // the live object it came from (tags only)
+	asked int
+	strat graph.TraversalStrategy
+	s     int
+	p     *graph.Paths
+	o     *graph.Orders
+	comps func() [][]int
+	id    func(int) int
+	dc    *graph.DirectedCycle
+	t     *graph.Topological
+	m     *graph.MinimumSpanningTree
+	spt   *graph.ShortestPathTree
+	v     int
+	adj   func() ([]arc, bool)
+}
+
+// adjSlice calls Adj(v) now and returns a reader of the slice that call returned
+func (g *gobj) adjSlice(v int, i int, bad func(int, string, ...any)) func() ([]arc, bool) {
+	switch g.kind {
+	case "directed":
+		l := g.d.Adj(v)
+		return func() ([]arc, bool) {
+			var out []arc
+			for _, w := range l {
+				out = append(out, arc{w, 0, 0, 0})
+			}
+			return out, l == nil
+		}
+	case "undirected":
+		l := g.u.Adj(v)
+		return func() ([]arc, bool) {
+			var out []arc
+			for _, w := range l {
+				out = append(out, arc{w, 0, 0, 0})
+			}
+			return out, l == nil
+		}
+	case "wdirected":
+		l := g.wd.Adj(v)
+		return func() ([]arc, bool) {
+			var out []arc
+			for _, e := range l {
+				out = append(out, arc{e.To(), e.From(), e.To(), g.unscale(e.Weight(), i, bad)})
+			}
+			return out, l == nil
+		}
+	default:
+		l := g.wu.Adj(v)
+		return func() ([]arc, bool) {
+			var out []arc
+			for _, e := range l {
+				a := e.Either()
+				out = append(out, arc{e.Other(v), a, e.Other(a), g.unscale(e.Weight(), i, bad)})
+			}
+			return out, l == nil
+		}
+	}
+}
+
+// compute makes the call f (paths <strat> <s> | orders <strat> | cc | scc | cycle | topo | mst | spt <s> | adjof <v>)
+// on the implementation object g.  r == nil: there is no result object and out is the line to print.
+func compute(g *gobj, f []string, i int, bad func(int, string, ...any), tags map[string]bool, argOOR *bool) (r *result, out string) {
+	atoi := func(s string) (int, bool) { v, err := strconv.Atoi(s); return v, err == nil }
+	if len(f) == 0 {
+		return nil, "bad-op"
+	}
+	r = &result{what: f[0], line: strings.Join(f, " "), g: g, src: g}
+	switch f[0] {
+	case "paths":
+		if len(f) != 3 {
+			return nil, "bad-op"
 		}
 		strat, ok := parseStrat(f[1])
 		s, ok2 := atoi(f[2])
 		if !ok || !ok2 {
-			return "bad-op"
+			return nil, "bad-op"
 		}
 		tags["paths-"+f[1]] = true
-		p := g.paths(s, strat)
+		r.strat, r.s = strat, s
+		r.p = g.paths(s, strat)
+	case "orders":
+		if len(f) != 2 {
+			return nil, "bad-op"
+		}
+		strat, ok := parseStrat(f[1])
+		if !ok {
+			return nil, "bad-op"
+		}
+		tags["orders-"+f[1]] = true
+		r.o = g.orders(strat)
+	case "cc", "scc":
+		if len(f) != 1 || (f[0] == "cc") == g.directed() {
+			return nil, "bad-op"
+		}
+		tags[f[0]] = true
+		switch {
+		case g.kind == "undirected":
+			c := g.u.ConnectedComponents()
+			r.comps, r.id = c.Components, c.ID
+		case g.kind == "wundirected":
+			c := g.wu.ConnectedComponents()
+			r.comps, r.id = c.Components, c.ID
+		case g.kind == "directed":
+			c := g.d.StronglyConnectedComponents()
+			r.comps, r.id = c.Components, c.ID
+		default:
+			c := g.wd.StronglyConnectedComponents()
+			r.comps, r.id = c.Components, c.ID
+		}
+	case "cycle":
+		if len(f) != 1 || g.kind != "directed" {
+			return nil, "bad-op"
+		}
+		tags["cycle"] = true
+		r.dc = g.d.DirectedCycle()
+	case "topo":
+		if len(f) != 1 || g.kind != "directed" {
+			return nil, "bad-op"
+		}
+		tags["topo"] = true
+		r.t = g.d.Topological()
+	case "mst":
+		if len(f) != 1 || g.kind != "wundirected" {
+			return nil, "bad-op"
+		}
+		tags["mst"] = true
+		r.m = g.wu.MinimumSpanningTree()
+	case "spt":
+		if len(f) != 2 || g.kind != "wdirected" {
+			return nil, "bad-op"
+		}
+		s, ok := atoi(f[1])
+		if !ok {
+			return nil, "bad-op"
+		}
+		if g.neg {
+			return nil, "ok unsupported-negative-weight"
+		}
+		tags["spt"] = true
+		if s < 0 || s >= g.n {
+			*argOOR = true
+			return nil, outOfRange(func() { g.wd.ShortestPathTree(s) })
+		}
+		r.s = s
+		r.spt = g.wd.ShortestPathTree(s)
+	case "adjof":
+		if len(f) != 2 {
+			return nil, "bad-op"
+		}
+		v, ok := atoi(f[1])
+		if !ok {
+			return nil, "bad-op"
+		}
+		r.v = v
+		r.adj = g.adjSlice(v, i, bad)
+	default:
+		return nil, "bad-op"
+	}
+	return r, ""
+}
+
+// render reads the result object r — everything it can be asked (sel == nil) or one To(v)/PathTo(v) — checks every
+// answer against the oracle graph r.g and returns the output line.
+func render(r *result, sel *int, i int, bad func(int, string, ...any), tags map[string]bool, argOOR *bool, answered *bool) string {
+	g := r.g
+	n := g.n
+	valid := func(v int) bool { return v >= 0 && v < n }
+	us := func(x float64) float64 { return math.Ldexp(x, -g.wexp) } // undo the weight scale
+
+	switch r.what {
+	case "paths":
+		p, s, strat := r.p, r.s, r.strat
 		var dist []int
 		if valid(s) {
 			dist = g.bfsDist(s)
@@ -540,7 +725,7 @@ func execOp(wl *world, f []string, i int, bad func(int, string, ...any), tags ma
 		check := func(v int, path []int, found bool) {
 			want := valid(s) && dist[v] >= 0
 			if found != want {
-				bad(i, "%s: To(%d) ok=%v but reachable=%v", strings.Join(f, " "), v, found, want)
+				bad(i, "%s: To(%d) ok=%v but reachable=%v", r.line, v, found, want)
 				return
 			}
 			if !found {
@@ -563,11 +748,8 @@ func execOp(wl *world, f []string, i int, bad func(int, string, ...any), tags ma
 				bad(i, "BFS To(%d) = %v has %d edges, the fewest possible is %d", v, path, len(path)-1, dist[v])
 			}
 		}
-		if f[0] == "path" {
-			v, ok := atoi(f[3])
-			if !ok {
-				return "bad-op"
-			}
+		if sel != nil {
+			v := *sel
 			if !valid(v) {
 				// outside the property's domain: only the implementation is run (the oracle would index out
 				// of range itself); the Model says `panic`, anything else shows up as a difference
@@ -634,15 +816,7 @@ func execOp(wl *world, f []string, i int, bad func(int, string, ...any), tags ma
 		return b.String()
 
 	case "orders":
-		if len(f) != 2 {
-			return "bad-op"
-		}
-		strat, ok := parseStrat(f[1])
-		if !ok {
-			return "bad-op"
-		}
-		tags["orders-"+f[1]] = true
-		o := g.orders(strat)
+		o := r.o
 		pre, post := o.PreOrder(), o.PostOrder()
 		preRank, postRank := make([]int, n), make([]int, n)
 		for v := 0; v < n; v++ {
@@ -669,34 +843,14 @@ func execOp(wl *world, f []string, i int, bad func(int, string, ...any), tags ma
 		return "ok pre=" + ints(pre) + " post=" + ints(post) + " prerank=" + ints(preRank) + " postrank=" + ints(postRank)
 
 	case "cc", "scc":
-		if len(f) != 1 || (f[0] == "cc") == g.directed() {
-			return "bad-op"
-		}
-		tags[f[0]] = true
 		id := make([]int, n)
-		var comps [][]int
-		var getComps func() [][]int
-		var getID func(int) int
-		switch {
-		case g.kind == "undirected":
-			c := g.u.ConnectedComponents()
-			getComps, getID = c.Components, c.ID
-		case g.kind == "wundirected":
-			c := g.wu.ConnectedComponents()
-			getComps, getID = c.Components, c.ID
-		case g.kind == "directed":
-			c := g.d.StronglyConnectedComponents()
-			getComps, getID = c.Components, c.ID
-		default:
-			c := g.wd.StronglyConnectedComponents()
-			getComps, getID = c.Components, c.ID
-		}
-		comps = getComps()
+		getComps, getID := r.comps, r.id
+		comps := getComps()
 		for v := range id {
 			id[v] = getID(v)
 		}
 		// partition exactly by (mutual) reachability
-		r := g.reachAll()
+		reach := g.reachAll()
 		used := map[int]bool{}
 		for v := 0; v < n; v++ {
 			if id[v] < 0 || id[v] >= len(comps) {
@@ -710,9 +864,9 @@ func execOp(wl *world, f []string, i int, bad func(int, string, ...any), tags ma
 	outer:
 		for a := 0; a < n; a++ {
 			for b := a + 1; b < n; b++ {
-				same := r[a][b] && r[b][a]
+				same := reach[a][b] && reach[b][a]
 				if (id[a] == id[b]) != same {
-					bad(i, "%s: id[%d]=%d id[%d]=%d but mutually reachable=%v", f[0], a, id[a], b, id[b], same)
+					bad(i, "%s: id[%d]=%d id[%d]=%d but mutually reachable=%v", r.what, a, id[a], b, id[b], same)
 					break outer
 				}
 			}
@@ -742,7 +896,7 @@ func execOp(wl *world, f []string, i int, bad func(int, string, ...any), tags ma
 			b.WriteString(ints(comp))
 		}
 		b.WriteByte(']')
-		if f[0] == "scc" {
+		if r.what == "scc" {
 			b.WriteString(" cert=true")
 		}
 		// aliasing: overwrite the returned component slices, ask again
@@ -771,11 +925,7 @@ func execOp(wl *world, f []string, i int, bad func(int, string, ...any), tags ma
 		return b.String()
 
 	case "cycle":
-		if len(f) != 1 || g.kind != "directed" {
-			return "bad-op"
-		}
-		tags["cycle"] = true
-		dc := g.d.DirectedCycle()
+		dc := r.dc
 		cyc, found := dc.Cycle()
 		want := g.hasCycle()
 		if found != want {
@@ -811,11 +961,7 @@ func execOp(wl *world, f []string, i int, bad func(int, string, ...any), tags ma
 		return "ok " + ints(keepCyc)
 
 	case "topo":
-		if len(f) != 1 || g.kind != "directed" {
-			return "bad-op"
-		}
-		tags["topo"] = true
-		t := g.d.Topological()
+		t := r.t
 		order, found := t.Order()
 		want := !g.hasCycle()
 		if found != want {
@@ -861,19 +1007,15 @@ func execOp(wl *world, f []string, i int, bad func(int, string, ...any), tags ma
 			scribble(again)
 		}
 		for v := n - 1; v >= 0; v-- {
-			if r, _ := t.Rank(v); r != rank[v] {
-				bad(i, "Rank(%d) = %d first and %d when asked again", v, rank[v], r)
+			if rk, _ := t.Rank(v); rk != rank[v] {
+				bad(i, "Rank(%d) = %d first and %d when asked again", v, rank[v], rk)
 				break
 			}
 		}
 		return out
 
 	case "mst":
-		if len(f) != 1 || g.kind != "wundirected" {
-			return "bad-op"
-		}
-		tags["mst"] = true
-		m := g.wu.MinimumSpanningTree()
+		m := r.m
 		es := m.Edges()
 		wt := us(m.Weight())
 		// oracle: spanning forest of the weight Kruskal finds
@@ -951,23 +1093,8 @@ func execOp(wl *world, f []string, i int, bad func(int, string, ...any), tags ma
 		}
 		return b.String()
 
-	case "spt", "sptto":
-		if g.kind != "wdirected" || (f[0] == "spt" && len(f) != 2) || (f[0] == "sptto" && len(f) != 3) {
-			return "bad-op"
-		}
-		s, ok := atoi(f[1])
-		if !ok {
-			return "bad-op"
-		}
-		if g.neg {
-			return "ok unsupported-negative-weight"
-		}
-		tags["spt"] = true
-		if !valid(s) {
-			*argOOR = true
-			return outOfRange(func() { g.wd.ShortestPathTree(s) })
-		}
-		t := g.wd.ShortestPathTree(s)
+	case "spt":
+		t, s := r.spt, r.s
 		want := g.shortest(s)
 		avail := map[[3]int64]bool{}
 		for _, e := range g.edges {
@@ -1018,11 +1145,8 @@ func execOp(wl *world, f []string, i int, bad func(int, string, ...any), tags ma
 			return b.String()
 		}
 		*answered = true
-		if f[0] == "sptto" {
-			v, ok := atoi(f[2])
-			if !ok {
-				return "bad-op"
-			}
+		if sel != nil {
+			v := *sel
 			if !valid(v) {
 				*argOOR = true
 				return outOfRange(func() { t.PathTo(v) })
@@ -1074,6 +1198,183 @@ func execOp(wl *world, f []string, i int, bad func(int, string, ...any), tags ma
 		}
 		b.WriteString(" cert=true")
 		return b.String()
+
+	case "adjof":
+		// The slice Adj(v) returned, read now.  What a slice handed out earlier shows after later AddEdge calls is not
+		// part of C14's statement (the graph's own state is judged by `dump`/`adjof` on the live object), so this line
+		// is compared with the Model only: in the Go code the slice header is a snapshot of the list at the call.
+		l, isNil := r.adj()
+		if isNil {
+			return "ok nil"
+		}
+		return "ok " + g.showArcs(l)
+	}
+	return "bad-op"
+}
+
+func execOp(wl *world, f []string, i int, bad func(int, string, ...any), tags map[string]bool, argOOR *bool, answered *bool, wexp int) string {
+	if len(f) == 0 {
+		return "bad-op"
+	}
+	if len(wl.objs) == 0 {
+		if ng := newGraph(f, wexp, i, bad, tags); ng != nil {
+			wl.objs = append(wl.objs, ng)
+			return "ok"
+		}
+		return "bad-op"
+	}
+	g := wl.objs[wl.cur]
+	n := g.n
+	if f[0] != "edge" && f[0] != "use" && f[0] != "mkrev" && f[0] != "ask" && f[0] != "new" {
+		if len(g.edges) > g.edgesAtQuery && g.queried {
+			tags["query-after-edge-after-query"] = true
+		}
+		g.queried = true
+		g.edgesAtQuery = len(g.edges)
+	}
+	atoi := func(s string) (int, bool) { v, err := strconv.Atoi(s); return v, err == nil }
+	valid := func(v int) bool { return v >= 0 && v < n }
+
+	switch f[0] {
+	case "edge":
+		if (g.weighted() && len(f) != 4) || (!g.weighted() && len(f) != 3) {
+			return "bad-op"
+		}
+		u, ok1 := atoi(f[1])
+		v, ok2 := atoi(f[2])
+		w, ok3 := 0, true
+		if g.weighted() {
+			w, ok3 = atoi(f[3])
+		}
+		if !ok1 || !ok2 || !ok3 {
+			return "bad-op"
+		}
+		scaled := math.Ldexp(float64(w), g.wexp)
+		if g.weighted() && valid(u) && valid(v) {
+			g.admitWeight(w, i, bad)
+		}
+		switch g.kind {
+		case "directed":
+			g.d.AddEdge(u, v)
+		case "undirected":
+			g.u.AddEdge(u, v)
+		case "wdirected":
+			g.wd.AddEdge(graph.VerifDirectedEdge(u, v, scaled))
+		case "wundirected":
+			g.wu.AddEdge(graph.VerifUndirectedEdge(u, v, scaled))
+		}
+		if valid(u) && valid(v) {
+			g.edges = append(g.edges, edge{u, v, int64(w)})
+			g.succ, g.reach = nil, nil
+			if w < 0 {
+				g.neg = true
+			}
+			if g.queried {
+				tags["edge-after-query"] = true
+			}
+			if g.ctorEdges {
+				tags["addedge-after-ctor-with-edges"] = true
+			}
+		} else {
+			tags["edge-out-of-range"] = true
+		}
+		return "ok"
+
+	case "dump", "reverse", "mkrev", "use", "indeg", "outdeg", "degree", "adjof", "edges", "traverse":
+		return execStateOp(wl, g, f, i, bad, tags)
+
+	case "new":
+		// NewX(n, edges…) of the same kind: a further object, unrelated to the others
+		if len(f) < 2 {
+			return "bad-op"
+		}
+		ng := newGraph(append([]string{"graph", g.kind}, f[1:]...), g.wexp, i, bad, tags)
+		if ng == nil {
+			return "bad-op"
+		}
+		wl.objs = append(wl.objs, ng)
+		return "ok obj=" + strconv.Itoa(len(wl.objs)-1)
+
+	case "paths", "orders", "cc", "scc", "cycle", "topo", "mst", "spt":
+		// the result object is read at once and dropped
+		r, out := compute(g, f, i, bad, tags, argOOR)
+		if r == nil {
+			return out
+		}
+		return render(r, nil, i, bad, tags, argOOR, answered)
+
+	case "path", "sptto":
+		// Paths(s).To(v) / ShortestPathTree(s).PathTo(v): one target
+		if (f[0] == "path" && len(f) != 4) || (f[0] == "sptto" && len(f) != 3) {
+			return "bad-op"
+		}
+		v, ok := atoi(f[len(f)-1])
+		call := append([]string{"paths"}, f[1:len(f)-1]...)
+		if f[0] == "sptto" {
+			call[0] = "spt"
+		}
+		r, out := compute(g, call, i, bad, tags, argOOR)
+		if r == nil {
+			return out
+		}
+		if !ok {
+			return "bad-op"
+		}
+		r.line = strings.Join(f, " ")
+		return render(r, &v, i, bad, tags, argOOR, answered)
+
+	case "keep":
+		// the call is made now, the result object stays with the client for the rest of the case
+		r, out := compute(g, f[1:], i, bad, tags, argOOR)
+		if r == nil {
+			if out == "ok unsupported-negative-weight" {
+				wl.kept = append(wl.kept, &result{what: "hole"})
+			}
+			return out
+		}
+		r.g = g.snapshot()
+		wl.kept = append(wl.kept, r)
+		tags["keep-"+r.what] = true
+		return "ok res=" + strconv.Itoa(len(wl.kept)-1)
+
+	case "ask":
+		if len(f) != 2 && len(f) != 3 {
+			return "bad-op"
+		}
+		k, ok := atoi(f[1])
+		if !ok || k < 0 || k >= len(wl.kept) || strings.HasPrefix(f[1], "+") {
+			return "bad-op"
+		}
+		var sel *int
+		if len(f) == 3 {
+			v, ok := atoi(f[2])
+			if !ok {
+				return "bad-op"
+			}
+			sel = &v
+		}
+		r := wl.kept[k]
+		if r.what == "hole" {
+			return "ok unsupported-negative-weight"
+		}
+		if sel != nil && r.what != "paths" && r.what != "spt" {
+			return "bad-op"
+		}
+		tags["ask-"+r.what] = true
+		if len(r.src.edges) > len(r.g.edges) {
+			tags["ask-after-addedge-on-its-graph"] = true
+		}
+		if k < len(wl.kept)-1 {
+			tags["ask-after-later-result"] = true
+		}
+		if r.src != g {
+			tags["ask-while-another-object-is-current"] = true
+		}
+		if r.asked > 0 {
+			tags["ask-again"] = true
+		}
+		r.asked++
+		return render(r, sel, i, bad, tags, argOOR, answered)
 	}
 	return "bad-op"
 }
